@@ -107,7 +107,7 @@ def main(argv=None):
             md0 = r.modes.get(f.owner)
             # a function that is no longer verified with its hints (contract-only / external) or that was restructured establishes nothing: it is outside the
             # verifier's reach for every property it carries, the safety-only ones included (its failures need not be safety failures for that)
-            wide = (md0 in ('contract_only', 'external') or f.owner in g.reshaped or f.owner in g.new_constructs or f.owner in g.renamed) and pid in g.props_of(f.owner)
+            wide = (md0 in ('contract_only', 'external') or f.owner in g.reshaped or f.owner in g.new_constructs or f.owner in g.renamed or f.owner in g.rule_lost) and pid in g.props_of(f.owner)
             if pid in f.props or wide:
                 md = r.modes.get(f.owner)
                 if unknown:
@@ -134,6 +134,11 @@ def main(argv=None):
             moved = [(n_, f_) for (n_, f_) in failures if n_ == name and f_.owner in g.new_constructs]
             failures = [(n_, f_) for (n_, f_) in failures if not (n_ == name and f_.owner in g.new_constructs)]
             soft += [(name, f_.owner, 'the function now uses library constructs whose specifications are too weak to carry the proof (%s); failed: %s' % (', '.join(g.new_constructs[f_.owner][:5]), f_.ident()[:100])) for (_, f_) in moved]
+        if g.rule_lost:
+            # a textual normalisation rule (3.2) applies at fewer sites of the function than on the pinned tree: the text the verifier saw is not what the overlay expects
+            moved = [(n_, f_) for (n_, f_) in failures if n_ == name and f_.owner in g.rule_lost]
+            failures = [(n_, f_) for (n_, f_) in failures if not (n_ == name and f_.owner in g.rule_lost)]
+            soft += [(name, f_.owner, 'a normalisation rule no longer applies where it applied on the pinned tree (%s), so a failed proof is not conclusive; failed: %s' % (', '.join(g.rule_lost[f_.owner][:3]), f_.ident()[:100])) for (_, f_) in moved]
         if g.reshaped:
             # a failed proof in a function whose statement structure is no longer the pinned one (statements added, a match turned into an if, a loop
             # reshaped ...) may only mean that hints, normalisation rules or invariants no longer fit: the bounded stand-in decides
